@@ -5,6 +5,7 @@
 From Coq Require Import List String.
 Local Open Scope string_scope.
 From Grog Require Import Str Label HashKey Build Build_single_proofs Build_ideal Build_lift_proofs Build_examples.
+From Grog Require Build_c02_proofs.
 Import ListNotations.
 
 (* A tainted target is never served from the cache by the next build that reaches it -- for every
@@ -42,6 +43,59 @@ Theorem C13_disabled_all_execute : forall (H : str -> str) cfg s roots w c,
 Proof. exact cache_off_all_execute. Qed.
 Print Assumptions C13_disabled_all_execute.
 
+(* ... and a disabled cache is neither read nor written (C02-F2 / C13-F1 repaired): in every load_outputs
+   mode, from every world and cache, a build with the cache disabled leaves the stored results and the
+   blobs exactly as they were and adds no taint (the taints of the targets it executed are consumed) *)
+Theorem C13_cache_off_leaves_cache : forall (H : str -> str) cfg s roots w c,
+  cfg_cache cfg = false ->
+  let c' := br_cache (build H cfg s roots w c) in
+  c_results c' = c_results c /\ c_cas c' = c_cas c /\
+  (forall l, label_in l (c_taint c') = true -> label_in l (c_taint c) = true).
+Proof. exact cache_off_leaves_cache. Qed.
+Print Assumptions C13_cache_off_leaves_cache.
+
+(* hence toggling the cache does not invalidate anything: build (cache on, mode all, successful, guards of
+   C02_noop_rebuild), perturb output paths at will, build ANY snapshot with the cache disabled (successful),
+   build the first snapshot again with the cache on -- the third build runs nothing *)
+Theorem C13_cached_build_after_cache_off_is_noop :
+  forall (H : str -> str) cfg cfg' s s' roots roots' w c (ps : list (str * pstate)),
+  cfg_mode cfg = LAll -> cfg_cache cfg = true -> Build_c02_proofs.cache_complete c ->
+  br_ok (build H cfg s roots w c) = true ->
+  Build_c02_proofs.distinct_keys (Build_c02_proofs.build_state H cfg s roots w c) = true ->
+  Build_c02_proofs.no_nocache_sel s (selection s roots) = true ->
+  cfg_mode cfg' = LAll -> cfg_cache cfg' = false ->
+  let r1 := build H cfg s roots w c in
+  let w1 := mkWorld (Build_c02_proofs.apply_perturbs ps (w_ws (br_world r1))) (w_ext (br_world r1)) in
+  let roff := build H cfg' s' roots' w1 (br_cache r1) in
+  br_ok roff = true ->
+  let r3 := build H cfg s roots (br_world roff) (br_cache roff) in
+  c_results (br_cache roff) = c_results (br_cache r1) /\ c_cas (br_cache roff) = c_cas (br_cache r1) /\
+  br_exec r3 = [] /\ br_ok r3 = true.
+Proof. exact Build_c02_proofs.rebuild_after_cache_off. Qed.
+Print Assumptions C13_cached_build_after_cache_off_is_noop.
+
+(* the same over histories: after ANY history without a lost blob, [build on; perturbations; build off;
+   build on] logs three builds of which the last runs nothing *)
+Theorem C13_history_cache_toggle_is_noop :
+  forall (H : str -> str) ops cfg cfg' roots roots' (ps : list (str * pstate)),
+  Build_c02_proofs.no_blob_faults ops = true ->
+  cfg_mode cfg = LAll -> cfg_cache cfg = true -> cfg_mode cfg' = LAll -> cfg_cache cfg' = false ->
+  let y := run_history H ops in
+  let s := sy_src y in
+  let r1 := build H cfg s roots (sy_world y) (sy_cache y) in
+  let w1 := mkWorld (Build_c02_proofs.apply_perturbs ps (w_ws (br_world r1))) (w_ext (br_world r1)) in
+  let roff := build H cfg' s roots' w1 (br_cache r1) in
+  let r3 := build H cfg s roots (br_world roff) (br_cache roff) in
+  br_ok r1 = true ->
+  Build_c02_proofs.distinct_keys (Build_c02_proofs.build_state H cfg s roots (sy_world y) (sy_cache y)) = true ->
+  Build_c02_proofs.no_nocache_sel s (selection s roots) = true -> br_ok roff = true ->
+  sy_log (run_history H (ops ++ OpBuild cfg roots :: Build_c02_proofs.perturb_ops ps ++
+                                [OpBuild cfg' roots'; OpBuild cfg roots]))
+    = sy_log y ++ [r1; roff; r3] /\
+  br_exec r3 = [] /\ br_ok r3 = true.
+Proof. exact Build_c02_proofs.history_rebuild_after_cache_off. Qed.
+Print Assumptions C13_history_cache_toggle_is_noop.
+
 (* "is executed": a target that ends Executed had its command started in this build *)
 Theorem C13_executed_ran : forall (H : str -> str) cfg s roots w c,
   cfg_mode cfg = LAll ->
@@ -64,6 +118,34 @@ Print Assumptions C13_hit_needs.
 (* non-vacuity (digest = identity): a <- b plus a no-cache target n.  Build; rebuild: a, b hit, n runs;
    taint a: a runs, b still hits (dependants are invalidated only if outputs changed), taint gone;
    cache off: everything runs *)
+(* non-vacuity of the cache-off theorems: the cache-disabled build r4 of Build_examples.v starts from a cache
+   with three results and two blobs and leaves them; the cached build after it serves a and b again; and the
+   instance of Build_c02_proofs.v (a <- b <- alias <- c, perturbed outputs) meets every guard of
+   C13_cached_build_after_cache_off_is_noop *)
+Theorem C13_cache_off_nonvacuous :
+  (c_results (br_cache r4) = c_results (br_cache r1) /\ c_cas (br_cache r4) = c_cas (br_cache r1) /\
+   List.length (c_results (br_cache r1)) = 3 /\ List.length (c_cas (br_cache r1)) = 2) /\
+  (br_status r4b = [THit; THit; TExecuted] /\ br_exec r4b = [L "n"] /\ br_ok r4b = true).
+Proof. exact (conj ex_cache_off_kept ex_after_cache_off). Qed.
+Print Assumptions C13_cache_off_nonvacuous.
+
+Theorem C13_cache_toggle_nonvacuous :
+  br_ok Build_c02_proofs.C02_examples.r1 = true /\
+  Build_c02_proofs.distinct_keys
+    (Build_c02_proofs.build_state HashKey_proofs.hex_enc Build_c02_proofs.C02_examples.cfgA
+       Build_c02_proofs.C02_examples.sx [3] Build_c02_proofs.C02_examples.w0 empty_cache) = true /\
+  Build_c02_proofs.no_nocache_sel Build_c02_proofs.C02_examples.sx
+    (selection Build_c02_proofs.C02_examples.sx [3]) = true /\
+  br_ok Build_c02_proofs.C02_examples.roff = true /\
+  List.length (br_exec Build_c02_proofs.C02_examples.roff) = 3 /\
+  br_status Build_c02_proofs.C02_examples.roff = [TExecuted; TExecuted; THit; TExecuted] /\
+  c_results (br_cache Build_c02_proofs.C02_examples.roff) = c_results (br_cache Build_c02_proofs.C02_examples.r1) /\
+  c_cas (br_cache Build_c02_proofs.C02_examples.roff) = c_cas (br_cache Build_c02_proofs.C02_examples.r1) /\
+  br_exec Build_c02_proofs.C02_examples.r3 = [] /\ br_ok Build_c02_proofs.C02_examples.r3 = true /\
+  br_status Build_c02_proofs.C02_examples.r3 = [THit; THit; THit; THit].
+Proof. exact Build_c02_proofs.C02_examples.rebuild_after_cache_off_nonvacuous. Qed.
+Print Assumptions C13_cache_toggle_nonvacuous.
+
 Theorem C13_nonvacuous :
   (br_status r1 = [TExecuted; TExecuted; TExecuted] /\ br_ok r1 = true) /\
   (br_status r2 = [THit; THit; TExecuted] /\ br_exec r2 = [L "n"] /\ br_ok r2 = true) /\
